@@ -146,6 +146,19 @@ def pipeline_check(ctx, prop_file, focus, n=None):
                                       {"case": pipe.impl_case(scs[k]), "alone": outs[k], "reused": pipe.impl_tuples(it["res"])})
     ctx.correspondence("reused Linter: scenario files of one configuration linted one after the other (two orders) vs each alone", n_reuse, n_reuse, [],
                        "the external-linter results of the files differ (declared codes, diagnostics)")
+    # ---- the other public entry point: the caller parses, Linter::lint_with_ast lints (same output as lint_file)
+    sub_ast = list(range(0, min(len(scs), 1500)))
+    ares = lib.run_vh("lint", [dict(pipe.impl_case(scs[k]), entry="ast") for k in sub_ast])
+    n_ast = n_ast_bad = 0
+    for k, r in zip(sub_ast, ares):
+        if impl[k] is None or lib_status(impl[k]) != "ok" or lib_status(r) != "ok":
+            continue
+        n_ast += 1
+        if pipe.impl_tuples(r) != outs[k]:
+            n_ast_bad += 1
+            if n_ast_bad <= 2:
+                ctx.violation("%s.lint_with_ast-differs-from-lint_file" % ctx.prop, "the two entry points disagree on a scenario", {"case": pipe.impl_case(scs[k]), "lint_file": outs[k], "lint_with_ast": pipe.impl_tuples(r)})
+    ctx.correspondence("entry points: Linter::lint_with_ast on the caller-parsed source vs Linter::lint_file", n_ast, n_ast, [], "scenarios with custom words, external results, every directive shape")
     # ---- the same scenarios in processes whose FIRST linted file used another configuration (other directive words, rules, external
     #      linter): state that a first Linter leaves behind in the process must not reach later Linters
     n_warm = n_warm_bad = 0
